@@ -6,9 +6,14 @@ import exchange as X
 from checks.c15 import ReportCheck, xml_facts
 
 LEVEL = 'proof'
-ASSUMPTIONS = ['PARTIAL: exact arithmetic (durations in ticks of 1/8 s, instants in microseconds); binary64 rounding is not modelled '
-               'and only dyadic decimals are generated, for which every summation order agrees',
+ASSUMPTIONS = ['PARTIAL: exact arithmetic in whole microseconds for durations, offsets and instants; the generated duration texts have at most '
+               'six fractional digits (dyadic and non-dyadic: 0.1, 12.34, 59.999999, 1e2), for which the binary64 sums of the code are within '
+               '0.01 us of the exact sum whatever the summation order; rounding below a microsecond is not modelled',
                'float() and dateutil.parser.parse are oracles supplied per case']
+
+
+def us_of(text):
+    return round(Fraction(float(text)) * 1000000)
 
 
 def val(tok):
@@ -20,7 +25,7 @@ class Check(ReportCheck):
     fields_ro = ('start', 'end', 'duration')
     fields_story = ('id', 'dur', 'off', 'start', 'end')
     rule = ('the running orders and reached states of the C15 generator (any mix of StoryDuration / TextTime / MediaTime with '
-            'dyadic values, explicit StoryStarted / StoryEnded on random subsets, roEdStart present or not, zero durations, '
+            'dyadic and non-dyadic decimal values, explicit StoryStarted / StoryEnded on random subsets, roEdStart present or not, zero durations, '
             'duplicate story IDs in 5% of the cases); timing fields compared with the model as exact integers, and checked '
             'against the arithmetic relations of the property computed from the document. distinct by the timing report')
 
@@ -40,14 +45,14 @@ class Check(ReportCheck):
             d = None
             if pl is not None:
                 if pl.find('StoryDuration') is not None:
-                    d = Fraction(float(pl.find('StoryDuration').text)) * 8
+                    d = us_of(pl.find('StoryDuration').text)
                 elif pl.find('TextTime') is not None or pl.find('MediaTime') is not None:
-                    d = sum(Fraction(float(pl.find(t).text)) * 8 for t in ('TextTime', 'MediaTime') if pl.find(t) is not None)
+                    d = sum(us_of(pl.find(t).text) for t in ('TextTime', 'MediaTime') if pl.find(t) is not None)
             durs.append(d)
         for s, f, d in zip(sec['stories'], facts, durs):
             got = val(self.grab(s, 'dur'))
             if got != (None if d is None else int(d)):
-                return 'story %r: duration %r, the document gives %r (ticks of 1/8 s)' % (f['id'], got, d)
+                return 'story %r: duration %r, the document gives %r (microseconds)' % (f['id'], got, d)
         ro_dur = val(self.grab(sec['ro'], 'duration'))
         if all(d is not None for d in durs):
             if ro_dur != int(sum(durs)):
@@ -69,13 +74,13 @@ class Check(ReportCheck):
             if exp_start is not None:
                 want = impl.time_us(exp_start.text)
             else:
-                want = None if ro_start is None or off is None else ro_start + off * 125000
+                want = None if ro_start is None or off is None else ro_start + off
             if st != want:
                 return 'story %r: start %r, expected %r (explicit StoryStarted, else programme start + offset)' % (f['id'], st, want)
             if exp_end is not None:
                 want_e = impl.time_us(exp_end.text)
             else:
-                want_e = None if st is None or d is None else st + int(d) * 125000
+                want_e = None if st is None or d is None else st + int(d)
             if en != want_e:
                 return 'story %r: end %r, expected %r (explicit StoryEnded, else start + duration)' % (f['id'], en, want_e)
             last_end = en
